@@ -181,6 +181,21 @@ def monitorTs (fmt : Fmt) (r : Req) (configured : Bool) (e : Timestamp.Env) (res
     | _ => pure ()
     return none
 
+/-- `NewLocalSigner(certs, key)`: in {certs:[cert…], keyMatchesLeaf}; out {ok, keySpec} -/
+def handleLocalSigner (j impl : Json) : E Json := do
+  let certs ← fldList j "certs" certOf
+  let kml ← fldBool j "keyMatchesLeaf"
+  let m := newLocalSigner certs kml
+  let iok ← fldBool impl "ok"
+  let verdict : Option String :=
+    match m with
+    | some _ => if iok then none else none       -- a refusal of an acceptable pair is not what C16 is about (the disagreement reports it)
+    | none => if iok then some "local_signer_constructed_from_a_key_that_is_not_the_leaf's_or_is_not_approved" else none
+  let model := match m with
+    | some ks => jobj [("ok", jbool true), ("keySpec", jobj [("type", jnat ks.type), ("size", jnat ks.size)])]
+    | none => jobj [("ok", jbool false)]
+  pure (jobj [("model", model), ("spec", specJson verdict)])
+
 /-- in: {fmt, req}; out: {ok, verified:{ok, content}} | {ok:false, class, stage} -/
 def handleSign (prop : String) (j impl : Json) : E Json := do
   let fmt ← match (← fldStr j "fmt") with
